@@ -891,6 +891,7 @@ def run(tier):
                     {"job": t["job"], "events": t["ev"][max(0, matched - 10):matched + 1]})
 
     sdp_part(v, tier, r)
+    sdps_part(v, tier, r)
     v.cov["operations"] = sorted(OPS)
     v.cov["rule"] = ("mboot: command layer = every driven operation with arguments from boundary value classes, the packets that reached the device compared with "
                      "MbootCmds.tla (tag, flags, parameter words, order); fault-free histories = every operation family x length class {0,1,mps-1,mps,mps+1,3mps+5} x packet sizes x both transports x packet size "
@@ -966,10 +967,78 @@ def sdp_part(v, tier, r):
     say(f"[C10] {len(traces)} SDP executions validated ({v.timer.s()}s)")
 
 
+# ------------------------------------------------------------------ SDPS
+def sdps_part(v, tier, r):
+    import c10_sdps as S
+    from lib.common import REPO
+
+    S.run_sdps.params = params = S.rom_params(REPO)
+    if len(params) < 3 or len({p for p in params.values()}) < 2:
+        raise Machinery(f"SDPS: ROM parameters of only {len(params)} families found in the device files")
+    jobs = S.sdps_jobs(tier, r, params)
+    traces = pmap(S.run_sdps, jobs, chunksize=8)
+    v.count(len(traces))
+    for t in traces:
+        v.nontrivial(json.dumps(t["job"]))
+    # canary: fixed traces written by hand from the protocol description (no SPSDK involved)
+    h2d = (lambda rid, size, **k: S.norm(dict({"ev": "h2d", "rid": rid, "size": size}, **k)))
+    cbw = {"sig": [17236, 19522], "tag": [0, 1], "xfer": [0, 1500], "flags": 0, "rsvZero": True, "cmd": 2, "cdbLen": [0, 1500], "padZero": True}
+    call = S.norm({"ev": "call", "op": "write_file", "len": 1500, "noCmd": False, "pack": 1024})
+    ok = S.norm({"ev": "result", "kind": "ret", "ok": True})
+    good = {"id": "c-good", "ev": [call, h2d(1, 1024, cbw=cbw), h2d(2, 1024), h2d(2, 1024), ok]}
+    bad = [{"id": "c-short", "ev": [call, h2d(1, 1024, cbw=cbw), h2d(2, 1024), ok]},                                     # success with a report missing
+           {"id": "c-nocmd", "ev": [call, h2d(2, 1024), h2d(2, 1024), ok]},                                               # command left out
+           {"id": "c-len", "ev": [call, h2d(1, 1024, cbw=dict(cbw, cdbLen=[56325, 0])), h2d(2, 1024), h2d(2, 1024), ok]},  # length least significant byte first
+           {"id": "c-lost", "ev": [call, h2d(1, 1024, cbw=cbw), h2d(2, 1024), h2d(2, 1024, fault="lost"), ok]},           # success although a report was lost
+           {"id": "c-big", "ev": [call, h2d(1, 1024, cbw=cbw), h2d(2, 1500), ok]},                                        # report larger than the ROM's report size
+           {"id": "c-order", "ev": [call, h2d(1, 1024, cbw=cbw), h2d(2, 1024), h2d(2, 1024, inOrder=False), ok]}]
+    crej, _ = tlc.tv("C10", "SdpsTrace", [good] + bad)
+    if set(crej) != {b["id"] for b in bad}:
+        raise Machinery(f"SDPS canary failed: rejected {sorted(crej)}")
+    rej, _ = tlc.tv("C10", "SdpsTrace", [{"id": t["id"], "ev": t["ev"]} for t in traces], heap="4g")
+    v.traces(len(traces))
+    by = {t["id"]: t for t in traces}
+    for tid, (matched, length, evname) in rej.items():
+        t = by[tid]
+        e = t["ev"][min(matched, len(t["ev"]) - 1)]
+        calls = [x for x in t["ev"][:matched + 1] if x["ev"] == "call"]
+        c = calls[-1] if calls else t["ev"][0]
+        res = next((x for x in t["ev"][matched:] if x["ev"] == "result"), t["ev"][-1])
+        if res["kind"] == "exc" and not res["documented"]:
+            out = f"undocumented-exception:{res['exc']}"
+        elif res["kind"] == "unbounded":
+            out = "unbounded"
+        elif res["ok"] and t["job"][2] >= 0:
+            out = "false-success"
+        elif not res["ok"] and t["job"][2] < 0:
+            out = "fails-without-fault"
+        else:
+            out = "contract"
+        cls = f"{'nocmd' if c['noCmd'] else 'cmd'}-{c['pack']}"
+        v.violation(f"C10/sdps/{cls}/{'second-call' if len(calls) > 1 else 'first-call'}/{'lost-report' if t['job'][2] >= 0 else 'no-fault'}/{out}",
+                    f"SDPS {t['job']}: event #{matched + 1} {json.dumps(e)[:300]} rejected", {"job": t["job"], "events": t["ev"]})
+    v.extra["sdps"] = {"families": sorted(params), "parameter_classes": sorted({str(p) for p in params.values()}), "executions": len(traces)}
+    say(f"[C10] {len(traces)} SDPS histories validated ({v.timer.s()}s)")
+
+
 def replay(path):
     import_spsdk()
     w = json.load(open(path))["witness"]
     job = w["job"]
+    if isinstance(job[0], str) and job[0].startswith("sdps"):
+        import c10_sdps as S
+        from lib.common import REPO
+
+        S.run_sdps.params = S.rom_params(REPO)
+        t = S.run_sdps((job[0], [tuple(c) for c in job[1]], job[2]))
+        rej, _ = tlc.tv("C10", "SdpsTrace", [{"id": t["id"], "ev": t["ev"]}])
+        for e in t["ev"]:
+            say(json.dumps({k: x for k, x in e.items() if x not in (0, "none", False)}))
+        if rej:
+            say(f"VIOLATION property=C10 replay={path}")
+            return 1
+        say("replay: trace accepted")
+        return 0
     if isinstance(job[0], str) and job[0].startswith("sdp"):
         from c10_sdp import run_sdp
 
